@@ -298,9 +298,18 @@ def invert (v : Value) : Outcome Value :=
   | .bool b => .ok (.bool (!b))
   | _ => .error .undefinedOperation
 
+/-- `Value::bool()`: used only for the internal "was this value new" flag of COUNT(DISTINCT …) (always a BOOLEAN there);
+conditions go through `condHolds` -/
 def Value.truthy : Value → Bool
   | .bool b => b
   | _ => false
+
+/-- `condition_holds`: a condition (WHERE, HAVING, an operand of AND / OR, a WHEN clause) holds or does not hold —
+a BOOLEAN is its value, NULL does not hold, a value of any other type has no truth value (`TypeError`) -/
+def condHolds : Value → Outcome Bool
+  | .bool b => .ok b
+  | .null => .ok false
+  | _ => .error .typeError
 
 /-! ### functions -/
 
@@ -540,16 +549,19 @@ def eval (O : Oracles) (env : Env) : Expr → Outcome Value
     arith op lv rv
   | .boolOp isAnd l r => do
     let lv ← eval O env l
+    let lb ← condHolds lv
     if isAnd then
-      if lv.truthy then do
+      if lb then do
         let rv ← eval O env r
-        pure (.bool rv.truthy)
+        let rb ← condHolds rv
+        pure (.bool rb)
       else pure (.bool false)
     else
-      if lv.truthy then pure (.bool true)
+      if lb then pure (.bool true)
       else do
         let rv ← eval O env r
-        pure (.bool rv.truthy)
+        let rb ← condHolds rv
+        pure (.bool rb)
   | .neg e => do
     let v ← eval O env e
     negate v
@@ -605,7 +617,8 @@ def evalCase (O : Oracles) (env : Env) : List (Expr × Expr) → Outcome (Option
   | [] => .ok none
   | (c, r) :: rest => do
     let cv ← eval O env c
-    if cv.truthy then do
+    let cb ← condHolds cv
+    if cb then do
       let v ← eval O env r
       pure (some v)
     else evalCase O env rest
